@@ -36,6 +36,19 @@ type Keyer struct {
 	names     map[ssa.Value]string
 	n         int
 	FreshLoad func(*types.Var) bool // fields whose every load must be a distinct value (e.g. concurrently modified)
+	Subst     map[ssa.Value]ssa.Value // case split: a phi standing for the value of one of its incoming edges
+}
+
+func (k *Keyer) res(v ssa.Value) ssa.Value {
+	v = resolveLocal(v)
+	for n := 0; n < 4 && k.Subst != nil; n++ {
+		s, ok := k.Subst[v]
+		if !ok {
+			break
+		}
+		v = resolveLocal(s)
+	}
+	return v
 }
 
 func NewKeyer(fn *ssa.Function) *Keyer {
@@ -87,7 +100,7 @@ func (k *Keyer) baseKey(v ssa.Value) string {
 
 // Key returns the canonical variable name of v.
 func (k *Keyer) Key(v ssa.Value) string {
-	v = resolveLocal(v)
+	v = k.res(v)
 	switch x := v.(type) {
 	case *ssa.UnOp:
 		if x.Op == token.MUL {
@@ -110,7 +123,7 @@ func (k *Keyer) Key(v ssa.Value) string {
 
 // TermOf decomposes v into var+const (through conversions and +/- constants).
 func (k *Keyer) TermOf(v ssa.Value) Term {
-	v = resolveLocal(v)
+	v = k.res(v)
 	switch x := v.(type) {
 	case *ssa.Const:
 		if c, ok := constInt(x); ok {
